@@ -38,6 +38,43 @@ wrapper_token!(WBoxStr, Box<str>);
 wrapper_token!(WVec, Vec<u8>);
 wrapper_token!(WRefStr, &'static str);
 
+/// USER-WRITTEN sources (not `Deref` wrappers): everything is delegated to `[u8]` / `str` except
+/// `is_boundary`, which is written the way a user would write it by hand - by INDEXING, so that it
+/// panics itself for an index behind the end instead of answering `false`. `bump` hands whatever it
+/// was given to `is_boundary`; if that call unwinds the lexer must be what it was before.
+macro_rules! strict_source {
+    ($name:ident, $inner:ty, $slice:ty, $boundary:expr) => {
+        pub struct $name(pub Box<$inner>);
+        impl logos::Source for $name {
+            type Slice<'a> = &'a $slice;
+            fn len(&self) -> usize {
+                self.0.len()
+            }
+            fn read<'a, C: logos::source::Chunk<'a>>(&'a self, offset: usize) -> Option<C> {
+                <$inner as logos::Source>::read(&self.0, offset)
+            }
+            fn slice(&self, range: std::ops::Range<usize>) -> Option<&$slice> {
+                <$inner as logos::Source>::slice(&self.0, range)
+            }
+            #[cfg(not(feature = "forbid_unsafe"))]
+            unsafe fn slice_unchecked(&self, range: std::ops::Range<usize>) -> &$slice {
+                // (checked on purpose: the harness must never execute the UB it is looking for)
+                &self.0[range]
+            }
+            fn find_boundary(&self, index: usize) -> usize {
+                <$inner as logos::Source>::find_boundary(&self.0, index)
+            }
+            fn is_boundary(&self, index: usize) -> bool {
+                $boundary(&*self.0, index)
+            }
+        }
+    };
+}
+strict_source!(StrictBytes, [u8], [u8], |s: &[u8], i: usize| -> bool { i == s.len() || s[i] as u16 <= 0xff });
+strict_source!(StrictStr, str, str, |s: &str, i: usize| -> bool { i == s.len() || (s.as_bytes()[i] as i8) >= -0x40 });
+wrapper_token!(WStrictBytes, StrictBytes);
+wrapper_token!(WStrictStr, StrictStr);
+
 fn n_values(len: usize) -> Vec<usize> {
     let mut v: Vec<usize> = (0..=len + 2).collect();
     v.extend(usize::MAX - len - 2..=usize::MAX);
@@ -50,7 +87,7 @@ fn n_values(len: usize) -> Vec<usize> {
 pub fn run(tier: &str, rep: &mut Report) {
     // unoptimised quick runs take every 17th scalar value above U+3000 (the optimised builds and the thorough tier take all)
     let sparse = cfg!(debug_assertions) && tier != "thorough";
-    rep.bounds.insert("rule".into(), "sources {\"\", \"a\", \"aé\", \"é€😊\", 9-byte ASCII} as str and [u8], ordinary and partial lexers, plus \"a<c>b\" for EVERY Unicode scalar value c (positions 0 and 1, n in 0..=len+1) and byte sources of every value (all strings of length <= 2, length 3 over 12 UTF-8 edge bytes, invalid UTF-8 included); every lexer position reachable by next() (every char / byte boundary); n in {0..=len+2} U {usize::MAX-len-2..=usize::MAX} U {2^63-1, 2^63, 2^63+1, usize::MAX/2, 2^32}. Oracle: bump(n) returns normally iff end+n <= len in unbounded arithmetic and (str) lands on a char boundary, otherwise it panics; after BOTH outcomes span() is a valid range on boundaries (checked numerically before slice()/remainder() are called). Non-trivial = the expected outcome is a panic or end+n is within +-1 of len.".into());
+    rep.bounds.insert("rule".into(), "sources {\"\", \"a\", \"aé\", \"é€😊\", 9-byte ASCII} as str and [u8], ordinary and partial lexers, the same through String / Box<str> / Vec<u8> / &str wrappers and through two user-written sources whose is_boundary panics by itself behind the end, plus \"a<c>b\" for EVERY Unicode scalar value c (positions 0 and 1, n in 0..=len+1) and byte sources of every value (all strings of length <= 2, length 3 over 12 UTF-8 edge bytes, invalid UTF-8 included); every lexer position reachable by next() (every char / byte boundary); n in {0..=len+2} U {usize::MAX-len-2..=usize::MAX} U {2^63-1, 2^63, 2^63+1, usize::MAX/2, 2^32}. Oracle: bump(n) returns normally iff end+n <= len in unbounded arithmetic and (str) lands on a char boundary, otherwise it panics; after BOTH outcomes span() is a valid range on boundaries (checked numerically before slice()/remainder() are called). Non-trivial = the expected outcome is a panic or end+n is within +-1 of len.".into());
     let sources: [&str; 5] = ["", "a", "aé", "é€😊", "abcdefghi"];
     std::panic::set_hook(Box::new(|_| {}));
     for src in sources {
@@ -122,6 +159,8 @@ pub fn run(tier: &str, rep: &mut Report) {
     wrapper_sweep!(WBoxStr, "Box<str>", |s: &str| s.to_string().into_boxed_str(), true);
     wrapper_sweep!(WVec, "Vec<u8>", |s: &str| s.as_bytes().to_vec(), false);
     wrapper_sweep!(WRefStr, "&str", |s: &'static str| s, true);
+    wrapper_sweep!(WStrictBytes, "user-written byte source whose is_boundary indexes (panics behind the end)", |s: &str| StrictBytes(s.as_bytes().to_vec().into_boxed_slice()), false);
+    wrapper_sweep!(WStrictStr, "user-written str source whose is_boundary indexes (panics behind the end)", |s: &str| StrictStr(s.to_string().into_boxed_str()), true);
     // ---------------- every Unicode scalar value: source "a<c>b", every n from a fresh lexer and
     // from the position after the first character (the boundary test must not single out any
     // code point or byte value)
